@@ -173,6 +173,7 @@ def run(ctx):
         ctx.ok("c20.monthly", "c20.monthly|held", "the Mutex holds the vec! of all %d rows" % len(rows), st.loc())
     else:
         ctx.violation("c20.monthly", "c20.monthly|held", "the value placed in the Mutex is not the vec! of all %d rows" % len(rows), st.loc())
+    check_azimuth_labels(ctx, prog, rows, cl)
     ctx.floor("c20", "literals checked", nlit, 8000)
     ctx.extra_cov["literals_checked"] = nlit
 
@@ -268,6 +269,84 @@ def check_names(ctx, prog, zones, orients, rule="c20.names"):
         ctx.violation(rule, "%s|orientation|bijection" % rule, "names map onto %s, expected each of the 9 variants once" % sorted(got.values()), of.loc())
     else:
         ctx.ok(rule, "%s|orientation|bijection" % rule, "the 9 names map bijectively onto the 9 variants", of.loc())
+
+
+def const_array_tuples(prog, path):
+    """the entries of a const array of tuples as lists of constants (numbers as Fraction, strings as str)"""
+    c = [f for f in prog.fns.values() if f.kind == "const" and f.path == path]
+    if len(c) != 1:
+        return None, None
+    eb = ExprBuilder(c[0].body)
+    for b, i, s_ in c[0].body.statements():
+        if s_["s"] == "assign" and s_["rv"]["r"] == "agg" and s_["rv"]["ak"] == "array":
+            n = eb.rvalue(s_["rv"])
+            out = []
+            for o in n[3]:
+                o = strip(o)
+                if not (o[0] == "agg" and o[3]):
+                    return None, c[0]
+                row = []
+                for x in o[3]:
+                    ss = [y[1] for y in walk(strip(x)) if y[0] == "s"]
+                    row.append(ss[-1] if ss else TB.const_eval(x))
+                out.append(row)
+            return out, c[0]
+    return None, c[0]
+
+
+def check_azimuth_labels(ctx, prog, rows, cl, rule="c20.azimuth"):
+    """"for every ... orientation class the embedded ... monthly tables ... equal what the radiation model computes": a table entry is looked up by the
+    Orientation that `Orientation::from(azimuth)` gives to a wall's azimuth, and its numbers are those of the radiation model for the surface azimuth
+    (`gamma`) stored in the entry - the same angle convention (from the south, east positive: climate::solar's `surf_azimuth`, fed with the very wall
+    azimuth the classifier gets).  So the name an entry carries has to be the class of its own gamma, for the embedded table and for the list
+    (climate::ORIENTATIONS) a new table is generated from; otherwise a facade gets the irradiation of the mirrored one."""
+    of = prog.method("types::common::Orientation", "convert::From", "from", inputs_contains="f32")
+    chain, default = TB.threshold_chain(of)
+    ctx.require(len(chain) >= 8, "Orientation::from(f32): the chain of sector comparisons was not recognised (%d comparisons)" % len(chain))
+    for (op, c, r, lhs, ln) in chain:
+        l = strip(lhs)
+        ctx.require(l[0] == "call" and short_callee(l[1]) == "normalize" and [strip(a)[1] for a in l[2][1:] if strip(a)[0] == "k"] == ["0.0", "360.0"],
+                    "Orientation::from(f32) does not compare normalize(azimuth, 0, 360): the class of a table's gamma cannot be evaluated")
+
+    def cls(az):
+        return TB.classify_by_chain(chain, default, Fraction(az) % 360)
+    # the embedded table
+    per = {}
+    for r, ln in rows:
+        f = dict(zip(r[2], r[3]))
+        z, o = TB.variant_of(f["zone"]), TB.variant_of(f["orientation"])
+        beta, gamma = num(f["beta"]), num(f["gamma"])
+        want = "HZ" if beta == 0 else cls(gamma)
+        d = per.setdefault(o, {"n": 0, "bad": [], "ln": ln})
+        d["n"] += 1
+        if want != o:
+            d["bad"].append((z, float(beta), float(gamma), want))
+    ctx.floor(rule, "table entries classified", sum(d["n"] for d in per.values()), 288)
+    for o, d in sorted(per.items()):
+        key = "%s|monthly|%s" % (rule, o)
+        if d["bad"]:
+            z, b, g, w = d["bad"][0]
+            ctx.violation(rule, key, "%d of the %d entries labelled %s hold the radiation of a surface of class %s (e.g. zone %s: tilt %s, azimuth %s, which "
+                          "Orientation::from puts in %s): windows of class %s get the irradiation of the mirrored facade"
+                          % (len(d["bad"]), d["n"], o, w, z, b, g, w, o), cl.loc(d["ln"]))
+        else:
+            ctx.ok(rule, key, "all %d entries labelled %s store an azimuth of that class" % (d["n"], o), cl.loc(d["ln"]))
+    # the list a new table is generated from (climate::met_monthly_data)
+    ents, cf = const_array_tuples(prog, "climate::ORIENTATIONS")
+    ctx.require(ents is not None and len(ents) == 9 and all(len(e) == 3 and isinstance(e[2], str) for e in ents), "climate::ORIENTATIONS not readable as (tilt, azimuth, name)")
+    sf = prog.method("types::common::Orientation", "convert::From", "from", inputs_contains="&str")
+    s2v = {lit: (TB.variant_of(val) if val else None) for lit, val, ln in TB.str_match_table(sf)}
+    for tilt, az, nme in ents:
+        key = "%s|list|%s" % (rule, nme)
+        named = s2v.get(nme, "S" if nme == "S" else None)
+        want = "HZ" if tilt == 0 else cls(az)
+        if named is None:
+            continue       # reported by c20.names
+        if named != want:
+            ctx.violation(rule, key, "climate::ORIENTATIONS calls the surface (tilt %s, azimuth %s) %r, the model's classifier puts that azimuth in %s: "
+                          "met_monthly_data generates the %r table from the mirrored facade" % (float(tilt), float(az), nme, want, nme), cf.loc())
+        else:
+            ctx.ok(rule, key, "(tilt %s, azimuth %s) is %r for the model's classifier too" % (float(tilt), float(az), nme), cf.loc())
 
 
 def const_array_strings(prog, path):
@@ -381,7 +460,7 @@ def norm_of(prog, fn, leafmap, callmap=None):
     rns = returned_nodes(fn.body)
     if len(rns) != 1:
         raise AnalysisError("%s: expected one return expression" % fn.path)
-    nz = Normalizer(leafmap, callmap or {})
+    nz = TrigNormalizer(leafmap, callmap or {})
     from ..cfgq import inline_all
     from ..formulas import VOCAB
     node = strip(sc._rw(rns[0][1]))
@@ -389,7 +468,7 @@ def norm_of(prog, fn, leafmap, callmap=None):
         return nz, nz.code(node)
     except AnalysisError:
         # written through small helpers or helper structs (`SinCos::of(x).sin`): read with those in place
-        nz = Normalizer(leafmap, callmap or {})
+        nz = TrigNormalizer(leafmap, callmap or {})
         return nz, nz.code(strip(inline_all(prog, node, keep=set(callmap or {}))))
 
 
@@ -457,15 +536,18 @@ def check_sun_position(ctx, prog, rule="c20.sunpos"):
     ref_sin = nz.ref("cosd(d)*sind(h)/cosd(a)")
     ref_cos = nz.ref("(cosd(w)*sind(d) - sind(w)*cosd(d)*cosd(h))/cosd(a)")
     ref_aux = nz.ref("asind(cosd(d)*sind(h)/cosd(a))")
+    east, west = Rat(Poly.const(180)) - ref_aux, Rat(Poly.const(0)) - (Rat(Poly.const(180)) + ref_aux)
+    # cos(180 - az) = 0 is the sun due east (sin > 0: az = +90 = 180 - asin(1)) or due west (sin < 0: az = -90 = -(180 + asin(-1))); on the equator at the
+    # equinox it is so all day.  Both cannot vanish at once (sin^2 + cos^2 = 1).
     expected = {("neg", 1): [ref_aux], ("neg", -1): [ref_aux], ("neg", 0): [ref_aux],
-                ("pos", 1): [Rat(Poly.const(180)) - ref_aux], ("pos", -1): [Rat(Poly.const(0)) - (Rat(Poly.const(180)) + ref_aux)],
-                ("pos", 0): [Rat(Poly.const(180)) - ref_aux, Rat(Poly.const(0)) - (Rat(Poly.const(180)) + ref_aux)]}
+                ("pos", 1): [east], ("pos", -1): [west], ("pos", 0): [east, west],
+                ("zero", 1): [east], ("zero", -1): [west]}
     import operator
     OPS = {"Lt": operator.lt, "Le": operator.le, "Gt": operator.gt, "Ge": operator.ge, "Eq": operator.eq, "Ne": operator.ne}
     bad = []
     seen_quantities = set()
     for (cs, ss), wants in sorted(expected.items()):
-        cval = {"neg": -1, "pos": 1}[cs]
+        cval = {"neg": -1, "pos": 1, "zero": 0}[cs]
 
         def atom_value(n_):
             n_ = strip(n_)
@@ -489,11 +571,95 @@ def check_sun_position(ctx, prog, rule="c20.sunpos"):
             bad.append((cs, ss, gotz, wants[0]))
     if bad:
         cs, ss, gotz, w_ = bad[0]
-        ctx.violation(rule, rule + "|azimuth", "for a sun with cos(180 - az) %s 0 and sin(az) %s 0 the azimuth returned is %s; spherical astronomy gives %s (az measured from south; "
-                      "asind#.. is the inverse sine of cos d sin h / cos(alt)) - %d of 6 sign cases differ"
-                      % ("<" if cs == "neg" else ">", {1: ">", 0: "=", -1: "<"}[ss], str(gotz)[:160], str(w_)[:120], len(bad)), zf.loc())
+        only_zero = all(b_[0] == "zero" for b_ in bad)
+        ctx.violation(rule, rule + ("|azimuth|due-east-west" if only_zero else "|azimuth"),
+                      "for a sun with cos(180 - az) %s 0 and sin(az) %s 0 the azimuth returned is %s; spherical astronomy gives %s (az measured from south; "
+                      "asind#.. is the inverse sine of cos d sin h / cos(alt)) - %d of 8 sign cases differ%s"
+                      % ({"neg": "<", "pos": ">", "zero": "="}[cs], {1: ">", 0: "=", -1: "<"}[ss], str(gotz)[:160], str(w_)[:120], len(bad),
+                         ": with the sun due east the result is -270 instead of +90, outside [-180, 180]" if only_zero else ""), zf.loc())
     else:
-        ctx.ok(rule, rule + "|azimuth", "azimuth = quadrant-corrected inverse sine of cos d sin h / cos(alt) in all 6 sign cases of (cos(180-az), sin(az))", zf.loc())
+        ctx.ok(rule, rule + "|azimuth", "azimuth = quadrant-corrected inverse sine of cos d sin h / cos(alt) in all 8 sign cases of (cos(180-az), sin(az))", zf.loc())
+    check_inverse_trig_domain(ctx, prog)
+
+
+def check_inverse_trig_domain(ctx, prog, rule="c20.domain"):
+    """"sun altitude and azimuth agree with spherical astronomy for every latitude, declination and hour", "the incidence angle ... is the angle between the
+    sun direction and the surface's outward normal": the quantities handed to an inverse sine / cosine are sums of products of sines and cosines that reach
+    exactly +-1 inside the quantifier (sun at the zenith, surface facing the sun, sun due east).  In f32 the sum lands a unit in the last place beyond 1
+    there, asin/acos give NaN, and what follows treats the NaN as night / drops the beam.  So every argument of asin/acos in the solar model must be, on the
+    path to the call, a sine or cosine itself or clamped to [-1, 1].  Wrappers (asind, acosd) are followed to their callers."""
+    INV = ("asin", "acos")
+    fns = [f for f in prog.fns.values() if f.crate == "climate" and f.path.startswith("climate::solar::") and not f.raw.get("impl_derived")]
+    wrappers = {}      # fn id -> index of the parameter that goes straight into asin/acos
+    sites = []
+    for f in fns:
+        sc = Scope(prog, f)
+        for b, t in f.body.calls():
+            nm = callee_name(t) or ""
+            if short_callee(nm) in INV and ("f32" in nm or "f64" in nm) and t["args"]:
+                a = strip(sc.operand(t["args"][0]))
+                if a[0] == "arg":
+                    wrappers[f.id] = a[1]
+                else:
+                    sites.append((f, sc, t, a, short_callee(nm)))
+    for f in fns:
+        sc = Scope(prog, f)
+        for b, t in f.body.calls():
+            from ..mir import callee_id
+            cid = callee_id(t)
+            if cid in wrappers and len(t["args"]) >= wrappers[cid]:
+                sites.append((f, sc, t, strip(sc.operand(t["args"][wrappers[cid] - 1])), prog.fns[cid].path.split("::")[-1]))
+    ctx.floor(rule, "inverse sine / cosine call sites in climate::solar", len(sites), 4)
+    seen = {}
+    for f, sc, t, a, what in sorted(sites, key=lambda x: (x[0].id, x[2].get("ln") or 0)):
+        base = "%s|%s|%s" % (rule, f.path.split("::")[-1], what)
+        seen[base] = seen.get(base, 0) + 1
+        key = base if seen[base] == 1 else "%s#%d" % (base, seen[base])
+        how = _bounded_unit(a)
+        if how:
+            ctx.ok(rule, key, "argument of %s is %s" % (what, how), f.loc(t.get("ln")))
+        elif a[0] == "bin" or (a[0] == "call" and short_callee(a[1]) in ("mul_add",)):
+            ctx.violation(rule, key, "%s(%s): the argument is computed in f32 from sines and cosines and is not limited to [-1, 1]; where it should be exactly +-1 "
+                          "(sun at the zenith, surface facing the sun) rounding puts it beyond, the inverse function gives NaN and the result is lost "
+                          "(altitude 0 at noon, beam dropped)" % (what, show(a)[:90]), f.loc(t.get("ln")))
+        else:
+            raise AnalysisError("%s: argument of %s is %s - neither arithmetic, a sine/cosine nor a clamp: not a shape this rule decides" % (f.path, what, show(a)[:80]))
+
+
+def _bounded_unit(a):
+    """is the node within [-1, 1] by construction: a sine or cosine, or clamp(_, -1, 1) / min(1).max(-1)"""
+    a = strip(a)
+    if a[0] == "k":
+        try:
+            return "the constant %s" % a[1] if -1.0 <= float(a[1]) <= 1.0 else None
+        except ValueError:
+            return None
+    if a[0] != "call":
+        return None
+    sh = short_callee(a[1])
+    if sh in ("sin", "cos", "sind", "cosd"):
+        return "a %s(..) value" % sh
+    if sh == "clamp" and len(a[2]) == 3:
+        lo, hi = strip(a[2][1]), strip(a[2][2])
+        if lo[0] == "k" and hi[0] == "k" and float(lo[1]) >= -1.0 and float(hi[1]) <= 1.0:
+            return "clamped to [%s, %s]" % (lo[1], hi[1])
+    if sh in ("min", "max") and len(a[2]) == 2:
+        # max(min(x, 1), -1) in either nesting / argument order
+        def lim(n, fn):
+            n = strip(n)
+            if n[0] == "call" and short_callee(n[1]) == fn and len(n[2]) == 2:
+                ks = [float(strip(x)[1]) for x in n[2] if strip(x)[0] == "k"]
+                rest = [x for x in n[2] if strip(x)[0] != "k"]
+                if len(ks) == 1 and len(rest) == 1:
+                    return ks[0], rest[0]
+            return None, None
+        other = "max" if sh == "min" else "min"
+        k1, inner = lim(a, sh)
+        if k1 is not None:
+            k2, _ = lim(inner, other)
+            if k2 is not None and min(k1, k2) >= -1.0 and max(k1, k2) <= 1.0:
+                return "limited with min/max to [%s, %s]" % (min(k1, k2), max(k1, k2))
+    return None
 
 
 ROLE_WORDS = ("tilt", "azimuth", "latitude", "longitude", "albedo", "declination", "hourangle", "altitude", "zenith")
